@@ -171,7 +171,11 @@ if __name__ == "__main__" and len(sys.argv) > 1 and sys.argv[1] == "refs":
         if sel and not any(s in name for s in sel):
             continue
         ids = [meta["property"]] + ([] if os.environ.get("REFS_OWN_ONLY") else [p for p in meta.get("also", []) if p != meta["property"]])
-        r = refactor_run(d, ids)
+        try:
+            r = refactor_run(d, ids)
+        except RuntimeError as ex:
+            print("%-12s STALE-PATCH %s" % (name, str(ex)[:90].replace("\n", " ")), flush=True)
+            continue
         alarms = {k: v for k, v in r.items() if isinstance(v, dict) and v["exit"] != 0}
         print("%-12s baseline=%s checks=%s %s" % (name, r["baseline_77"], ",".join(ids),
               "SILENT" if not alarms else "ALARM " + json.dumps({k: [v["exit"], v["mechanisms"][:3]] for k, v in alarms.items()})), flush=True)
